@@ -114,6 +114,10 @@ TimeInterval TimeoutManager::ExecuteTimeouts(TimeStamp *now) {
       e->UpdateTime(*now);
       m_events.push(e);
     } else {
+      // The callback may have cancelled its own timeout. The id must not
+      // outlive the Event, otherwise the next Event allocated at the same
+      // address would be treated as cancelled.
+      m_removed_timeouts.erase(e);
       delete e;
       if (m_export_map)
         (*m_export_map->GetIntegerVar(K_TIMER_VAR))--;
